@@ -117,6 +117,12 @@ def run_server(case):
         for s in socks.values():
             if not s.sends:
                 s.sends = [["acc", 0]]
+        if wl is not None and p.get("wlop"):          # the server's WireLog is closed / reconfigured between passes
+            if p["wlop"][0] == "close":
+                wl.close()
+            else:
+                wl.reopen(**p["wlop"][1])
+                c09.wrap_wl(wl, records)
         for i, hx in p.get("tx", []):
             if ca_of(i) in sv.ixes:
                 sv.transmitIx(bytes.fromhex(hx), ca_of(i))
@@ -135,7 +141,8 @@ def run_server(case):
                     "ixes": [[ident[ca], bool(r.cutoff), len(r.txbs), len(r.rxbs)] for ca, r in sv.ixes.items()],
                     "cxes": [ident[ca] for ca in getattr(sv, "cxes", {})],
                     "closed": list(closed),
-                    "calls": {str(i): [s.n_recv, s.n_send] for i, s in socks.items()}})
+                    "calls": {str(i): [s.n_recv, s.n_send] for i, s in socks.items()},
+                    "nrec": len(records), "moved": {str(i): [len(s.delivered), len(s.accepted)] for i, s in socks.items()}})
     for s in socks.values():
         if s.misuse:
             raise AssertionError("fake socket misuse: %s" % s.misuse)
@@ -354,18 +361,35 @@ def failures(case, obs):
     if "wlog" in obs:
         if any(r[0] == "bad" for r in obs["wlog"]):
             out.append(("wirelog", "wl", "-", 0, "wire log record not of the form Rx/Tx <connection address ca>"))
-        for i, (rx, tx) in obs["moved"].items():
-            lrx = "".join(r[2] for r in obs["wlog"] if r[0] == "rx" and str(r[1]) == i)
-            ltx = "".join(r[2] for r in obs["wlog"] if r[0] == "tx" and str(r[1]) == i)
-            if lrx != rx or ltx != tx:
-                out.append(("wirelog", "wl", "-", 0, f"connection {i}: wire log differs from the bytes actually received/sent"))
+        txed = rxed = True
+        p_n, p_moved = 0, {i: [0, 0] for i in obs["moved"]}
+        for n, (p, po) in enumerate(zip(case["passes"], obs["passes"])):
+            if p.get("wlop"):
+                if p["wlop"][0] == "close":
+                    opened = False
+                else:
+                    opened = True
+                    txed = p["wlop"][1].get("txed", txed)
+                    rxed = p["wlop"][1].get("rxed", rxed)
+            elif n == 0:
+                opened = True
+            new = obs["wlog"][p_n:po["nrec"]]
+            for i, (rx, tx) in obs["moved"].items():
+                lrx = "".join(r[2] for r in new if r[0] == "rx" and str(r[1]) == i)
+                ltx = "".join(r[2] for r in new if r[0] == "tx" and str(r[1]) == i)
+                want_rx = rx[2 * p_moved[i][0]:2 * po["moved"][i][0]] if (opened and rxed) else ""
+                want_tx = tx[2 * p_moved[i][1]:2 * po["moved"][i][1]] if (opened and txed) else ""
+                if lrx != want_rx or ltx != want_tx:
+                    out.append(("wirelog", "wl", "-", 0, f"pass {n}, connection {i}: wire log differs from the bytes actually "
+                                f"received/sent while logging was enabled (rx {opened and rxed}, tx {opened and txed})"))
+            p_n, p_moved = po["nrec"], po["moved"]
     # isolation: every connection evolves exactly as if it were the only one
     if not any_raise and not out and len(case["ix0"]) + len(case["cx0"]) > 1:
         for i in case["ix0"] + case["cx0"]:
             sub = {"scene": "server", "tls": case["tls"], "single": case.get("single", False), "wl": case.get("wl", False),
                    "ix0": [i] if i in case["ix0"] else [], "cx0": [i] if i in case["cx0"] else [],
                    "passes": [{"tx": [t for t in p.get("tx", []) if t[0] == i], "hs": [h for h in p.get("hs", []) if h[0] == i],
-                               "io": [s for s in p.get("io", []) if s[0] == i]} for p in case["passes"]]}
+                               "io": [s for s in p.get("io", []) if s[0] == i], "wlop": p.get("wlop")} for p in case["passes"]]}
             so = run_server(sub)
             for n, (po, spo) in enumerate(zip(obs["passes"], so["passes"])):
                 mine = [e for e in po["ixes"] if e[0] == i]
@@ -510,6 +534,11 @@ def directed():
                 out.append({"scene": "server", "tls": tls, "wl": True, "single": single, "ix0": [1, 2, 3], "cx0": [],
                             "passes": [{"tx": [[1, P1], [2, P1], [3, P1]], "io": [[1, good], [2, bad], [3, good]]},
                                        {"tx": [[3, "ff"]], "io": [[1, good], [2, {"recvs": [["err", "os", errno.ECONNRESET]], "send": ["acc", 1]}], [3, good]]}]})
+        for wlop in (["close"], ["reopen", {"rxed": False}], ["reopen", {"txed": False}], ["reopen", {"samed": False, "txed": False}]):
+            out.append({"scene": "server", "tls": tls, "wl": True, "ix0": [1, 2], "cx0": [],
+                        "passes": [{"tx": [[1, P1], [2, P1]], "io": [[1, good], [2, good]]},
+                                   {"wlop": wlop, "tx": [[2, "ff"]], "io": [[1, good], [2, good]]},
+                                   {"wlop": ["reopen", {"rxed": True, "txed": True}], "io": [[1, good], [2, good]]}]})
         for stop in (["data", ""], ["err", "os", errno.ECONNRESET], ["err", "os", errno.ETIMEDOUT]):
             for late in (["err", "os", errno.EPIPE], ["err", "os", errno.ECONNRESET], ["acc", 3]):
                 for pos in (1, 2):
@@ -598,6 +627,10 @@ def gen_server(rng):
         case["single"] = True
     if rng.random() < 0.5:
         case["wl"] = True
+        for p in passes[1:]:
+            if rng.random() < 0.4:
+                p["wlop"] = rng.choice([["close"], ["reopen", {"rxed": False}], ["reopen", {"txed": False}],
+                                        ["reopen", {"samed": False}], ["reopen", {"rxed": True, "txed": True, "samed": True}], ["reopen", {}]])
     return case
 
 
